@@ -236,7 +236,19 @@ def r_sibling(F, R, cat=None):
             adt = adt  # each arity is its own group
         groups[adt].append(b)
     n = 0
+    custom = F.custom_iterator_adts()
+
+    def builds_custom_iter(b_):
+        return bool(custom) and any(st["k"] == "assign" and st["rv"].get("k") == "aggregate" and st["rv"].get("adt") in custom
+                                    for blk in b_.blocks for st in blk["stmts"])
     for adt, bs in sorted(groups.items()):
+        hidden = [b_ for b_ in bs if builds_custom_iter(b_)]
+        if hidden:
+            # forms that do part of their work inside a crate-private iterator type show only part
+            # of their effects: they are left out of the comparison
+            for b_ in hidden:
+                R.undecided_site("R-SIBLING", b_.label(), "builds a crate-private iterator type: its effect signature is not read")
+            bs = [b_ for b_ in bs if b_ not in hidden]
         if len(bs) < 2:
             continue
         sigs = {b.key: signature(F, cat, b) for b in bs}
